@@ -92,14 +92,25 @@ package sync
 //@   before wantSync [C07] target-recorded-before-wakeup: pendingAdds == old(pendingAdds) + 1 -- the sync loop must find the new target when the trigger wakes it
 //@   modifies AP_set, AP_val_Hdr, elems(H), EH_Int, headerRange.headers, headerRange.start, ranges.ranges, $now, ghost:storeAppends, ghost:appendedTop, errNonAdjacent.Head, errNonAdjacent.Attempted, ghost:pendingAdds, ghost:pendingReads
 
+// chainFrom(a, b): b is reached from a through a chain of successful header.Verify calls (history predicate:
+// introduced only by the two axioms below, from passedVerify, which is defined at Verify's exit). The getter's
+// word is not enough for an intermediate of the bifurcation search: it must pass Verify against the current
+// subjective head before it is promoted (C15, C03).
+//@ predicate chainFrom(a H, b H)
+//@ axiom chain-base: forall t H, u H @ passedVerify(t, u) :: passedVerify(t, u) ==> chainFrom(t, u)
+//@ axiom chain-step: forall a H, t H, u H @ chainFrom(a, t), passedVerify(t, u) :: chainFrom(a, t) && passedVerify(t, u) ==> chainFrom(a, u)
+//@ pure linked(a, b) = a == b || chainFrom(a, b)
 //@ func (*Syncer).verifyBifurcating(s, ctx, subjHead, newHead)
-//@   props C15
+//@   props C15, C03
 //@   requires verified(subjHead) && newHead.Height() > subjHead.Height()
+//@   before setLocalHead [C15,C03] promoted-only-after-verification: chainFrom(old(subjHead), arg2) -- an intermediate becomes the subjective head (and a sync target) only through a chain of successful Verify calls from the subjective head the search started with
+//@   ensures [C15,C03] accepted-through-a-chain: result == nil ==> chainFrom(old(subjHead), newHead)
 //@   modifies AP_set, AP_val_Hdr, elems(H), EH_Int, headerRange.headers, headerRange.start, ranges.ranges, $now, ghost:storeAppends, ghost:appendedTop, errNonAdjacent.Head, errNonAdjacent.Attempted, header.VerifyError.SoftFailure, ghost:pendingAdds, ghost:pendingReads
 //@   ensures [C15] sound: result == nil ==> verified(newHead) && !newHead.IsZero()
 //@   ensures [C15] refusal-reason: result != nil && asVerr(result) != nil && asVerr(result).SoftFailure ==> cur(subjHeight) + 1 >= newHead.Height()
 //@ loop 0:
 //@   invariant [C15] search: subjHeight == subjHead.Height() && subjHeight < newHead.Height() && diff <= newHead.Height() - subjHeight && verified(subjHead)
+//@   invariant [C15,C03] chained: linked(old(subjHead), subjHead)
 //@   decreases [C15] newHead.Height() - subjHeight, diff
 
 // ---- only verified headers reach the store or the pending ranges (C03)
@@ -334,6 +345,13 @@ package sync
 //@ ghost var syncRuns int -- number of Syncer.sync runs
 //@ func (*Syncer).sync(s, ctx)
 //@   props C07
+//@   ghost lh H := result0 of call localHead #0
+//@   ghost lherr error := result1 of call localHead #0
+//@   ghost sh H := result0 of call (*syncStore).Head #0
+//@   ghost sherr error := result1 of call (*syncStore).Head #0
+//@   ghost dres error := result0 of call doSync #0
+//@   ensures [C07] syncs-whenever-behind: called(lh) && lherr == nil && called(sh) && sherr == nil && sh.Height() < lh.Height() ==> called(dres) -- also when the target is just one header above the store head (one head learnt while the previous sync ran)
+//@   ensures [C07] up-to-the-target: called(dres) && dres == nil ==> appendedTop == lh.Height()
 //@   modifies AP_set, AP_val_Hdr, ghost:storeAppends, ghost:appendedTop, errNonAdjacent.Head, errNonAdjacent.Attempted, $now, ranges.ranges, headerRange.headers, headerRange.start, State.ID, State.FromHeight, State.ToHeight, State.FromHash, State.ToHash, State.Start, State.End, State.Error, ghost:pendingAdds, elems(H), EH_Int, ghost:pendingReads
 //@   effect syncRuns := old(syncRuns) + 1
 
